@@ -35,6 +35,7 @@ CONSTANTS MaxProd,        \* productions per document (fuel)
           NAttrs,         \* palette attribute sets 1..NAttrs (fixed sets: classes, ids, positions, ...)
           NDimProps,      \* palette: properties that carry a length / number (height with overflow:auto, width,
                           \*          font-size, margin, border-width, colspan, rowspan, border, ...)
+          NReadProps,     \* palette: the first NReadProps dimension properties are read by the passes themselves
           NDimShapes,     \* palette: spellings of such a value (px pt em % unitless decimal negative zero empty
                           \*          garbage upper-case ...); attribute NAttrs + (p-1)*NDimShapes + s is property p
                           \*          written with shape s — the whole product is part of the palette
@@ -222,13 +223,14 @@ CloseExt ==
 \* named definitions so far + 1)
 NamedDefs == Cardinality({i \in 1..Len(out) : out[i].t = "ro" /\ out[i].b = 1})
 OpenRef ==
-  /\ InInline /\ Room(4) /\ CanOpen /\ ~InRef /\ ~InLink /\ ~InHead /\ ~InPre /\ ~Has("cap") /\ NW <= MaxWords
+  /\ InInline /\ Room(4) /\ CanOpen /\ ~InRef /\ ~InLink /\ ~InHead /\ ~InPre /\ (Palette \/ ~Has("cap")) /\ NW <= MaxWords
   /\ (Last.t \in {"w", "sc", "lc", "ec"} \/ PlainLo(Last))
   /\ \E mode \in {0, 1} :
        /\ mode = 1 => NamedDefs < 2
        /\ out' = Append(out, Tok("ro", IF mode = 1 THEN NamedDefs + 1 ELSE 0, mode))
   /\ stack' = Append(stack, Fr("ref", 0, 0, 0))
-  /\ Spend /\ Same(<<den, sec, lctx, pos, flags, done>>)
+  /\ flags' = IF Has("cap") THEN [flags EXCEPT !.clean = FALSE, !.lossless = FALSE] ELSE flags
+  /\ Spend /\ Same(<<den, sec, lctx, pos, done>>)
 
 CloseRef ==
   /\ InInline /\ fuel > 0 /\ stack # <<>> /\ Top.k = "ref" /\ NonEmpty
@@ -241,7 +243,7 @@ CloseRef ==
 \* do); End is then only possible after that definition has been written.
 ForwardUses == {i \in 1..Len(out) : out[i].t = "ro" /\ out[i].b = 2 /\ out[i].a > NamedDefs}
 ReuseRef ==
-  /\ InInline /\ Room(1) /\ CanStep /\ ~InRef /\ ~InLink /\ ~InHead /\ ~InPre /\ ~Has("cap")
+  /\ InInline /\ Room(1) /\ CanStep /\ ~InRef /\ ~InLink /\ ~InHead /\ ~InPre /\ (Palette \/ ~Has("cap"))
   /\ (Last.t \in {"w", "sc", "lc", "ec"} \/ PlainLo(Last))
   /\ \E n \in 1..(NamedDefs + 1) :
        /\ n = NamedDefs + 1 => (NamedDefs < 2 /\ ForwardUses = {} /\ fuel > CloseCost + 8)
@@ -363,10 +365,12 @@ OpenTable ==
 
 Caption ==
   /\ TableCtx /\ CanOpen /\ TFrame.c = 2 /\ NW <= MaxWords
-  /\ out' = Append(out, Tok("tcap", 0, 0))
+  /\ \E at \in AttrChoices :
+       /\ out' = Append(out, Tok("tcap", at, 0))
+       /\ flags' = IF at = 0 THEN flags ELSE [flags EXCEPT !.clean = FALSE, !.lossless = FALSE]
   /\ stack' = Append(SetT([TFrame EXCEPT !.c = 3]), Fr("cap", 0, 0, 0))
   /\ pos' = "inl"
-  /\ Spend /\ Same(<<den, sec, lctx, flags, done>>)
+  /\ Spend /\ Same(<<den, sec, lctx, done>>)
 
 NextRow ==
   /\ TableCtx /\ CanStep /\ TFrame.c \in {0, 2, 3}
@@ -483,6 +487,17 @@ Nest ==
   /\ lctx' = <<>>
   /\ Dirty /\ Spend /\ Same(<<den, stack, sec, pos, done>>)
 
+\* every attribute set of the palette (fixed sets and the whole dimension product) on an element of
+\* its own; the host element (div / span / table / row / cell / caption / list) rotates with the id
+AttrDoc ==
+  /\ Palette /\ NestMode \in {1, 3} /\ BlockOK /\ CanStep /\ out = <<>>
+  /\ \E at \in 1..(NAttrs + NDim) :
+       \* quick (mode 1): all fixed sets, every shape of the properties the passes read, a quarter of the rest
+       /\ NestMode = 1 => (at <= NAttrs + NReadProps * NDimShapes \/ at % 4 = 0)
+       /\ out' = <<Tok("adoc", at, at % 7), Tok("nl", 0, 0)>>
+  /\ lctx' = <<>>
+  /\ Dirty /\ Spend /\ Same(<<den, stack, sec, pos, done>>)
+
 \* macro tables: r rows x c columns, one word per cell (sizes around the cleaner's thresholds)
 RECURSIVE RowToks(_, _, _), TableToks(_, _, _, _)
 RowToks(c, j, w) == IF j > c THEN <<>> ELSE <<Tok("tc", 0, 0), Tok("sp", 0, 0), Tok("w", w + j - 1, 0), Tok("nl", 0, 0)>> \o RowToks(c, j + 1, w)
@@ -514,6 +529,28 @@ ListCell ==
   /\ lctx' = <<>>
   /\ Dirty /\ Spend /\ Same(<<sec, pos, done>>)
 
+\* Clean grammar (inside C07's lossless domain: far below 2500 / 5000 characters and 25 rows): a
+\* one-column, two-row table whose first cell holds a line, a list of n short items and a closing
+\* line — tall enough (n >= 15) for the cleaner to split the row (treecleanerhelper.split_row); with
+\* one column the split keeps the reading order.
+TallDen(n, base) ==
+  LET cell == base \o <<Lab("Table", 0), Lab("Row", 1), Lab("Cell", 2)>> IN
+  [k \in 1..(n + 3) |->
+     [w |-> NW + k - 1, t |-> 0,
+      path |-> IF k = 1 \/ k = n + 2 THEN cell
+               ELSE IF k = n + 3 THEN base \o <<Lab("Table", 0), Lab("Row", 2), Lab("Cell", 2)>>
+               ELSE cell \o <<Lab("UL", k - 1)>>]]
+TallCell ==
+  /\ BlockOK /\ stack = <<>> /\ CanStep /\ \E n \in {16, 22} :
+       /\ NW + n + 3 <= MaxWords
+       /\ out' = out \o <<Tok("tb", 0, 0), Tok("nl", 0, 0), Tok("tc", 0, 0), Tok("sp", 0, 0), Tok("w", NW, 0), Tok("nl", 0, 0)>>
+                      \o ItemToks(n, 1, NW + 1)
+                      \o <<Tok("w", NW + n + 1, 0), Tok("nl", 0, 0), Tok("tr", 0, 0), Tok("nl", 0, 0),
+                           Tok("tc", 0, 0), Tok("sp", 0, 0), Tok("w", NW + n + 2, 0), Tok("nl", 0, 0), Tok("te", 0, 0), Tok("nl", 0, 0)>>
+       /\ den' = den \o TallDen(n, CurPath)
+  /\ lctx' = <<>>
+  /\ Spend /\ Same(<<stack, sec, pos, flags, done>>)
+
 (* ---------------------------------------------------------------- malformed markup *)
 Lexeme ==
   /\ Free /\ ~done /\ fuel > 0
@@ -522,7 +559,7 @@ Lexeme ==
   /\ Spend /\ Same(<<den, stack, sec, lctx, pos, done>>)
 
 -----------------------------------------------------------------------------
-End == /\ ~done /\ AtBol /\ stack = <<>> /\ (Len(out) >= MinOut \/ fuel <= 2) /\ (den # <<>> \/ NNest > 0 \/ \E i \in 1..Len(out) : out[i].t = "snip")
+End == /\ ~done /\ AtBol /\ stack = <<>> /\ (Len(out) >= MinOut \/ fuel <= 2) /\ (den # <<>> \/ NNest > 0 \/ \E i \in 1..Len(out) : out[i].t \in {"snip", "adoc"})
        /\ ForwardUses = {}
        /\ done' = TRUE
        /\ flags' = NoEmptySection
@@ -539,7 +576,7 @@ Next ==
   \/ Heading \/ ParaLine \/ ParagraphBreak \/ PreLine \/ ListLine
   \/ OpenTable \/ Caption \/ NextRow \/ Cell \/ CellSep \/ CloseTable
   \/ OpenDiv \/ CloseDiv
-  \/ OpenSpan \/ CloseSpan \/ Snippet \/ Nest \/ BigTable \/ ListCell
+  \/ OpenSpan \/ CloseSpan \/ Snippet \/ Nest \/ AttrDoc \/ BigTable \/ ListCell \/ TallCell
   \/ Lexeme
   \/ End \/ EndFree
 Spec == Init /\ [][Next]_vars
